@@ -47,9 +47,21 @@ class VClock:
         return self.us / 1e6
 
 
-def make_record(mode, rid, size):
+# characters that are ordinary content of a text record (only '\n' delimits) but that some "line" helpers treat as
+# boundaries or that take more than one byte
+ODD = ('\r', '\x0b', '\x0c', '\x1c', '\x1e', '\x85', '\u2028', '\u00e9', '\t', ' ')
+
+
+def make_record(mode, rid, size, odd=0):
     """(value handed to write(), raw bytes expected on disk, value expected back from read())."""
     tag = f'<{rid}>'
+    if odd and mode in ('txt', 'binl'):
+        c = ODD[(odd - 1) % len(ODD)]
+        s = (tag + FILL * (size // len(FILL) + 1))[:max(size, len(tag) + 2)]
+        k = len(s) - 1 if rid % 2 else len(tag) + (len(s) - len(tag)) // 2      # last character, or in the middle
+        s = s[:k] + c + s[k + 1:]
+        b = s.encode()
+        return (s, b + b'\n', s) if mode == 'txt' else (b, b + b'\n', b)
     if mode == 'json':
         if size < 12 + len(str(rid)):
             val = rid
@@ -557,7 +569,7 @@ class RollWorld:
         if w.obj is None:
             self.probe('skipped_ops')
             return
-        val, raw, back = make_record(self.mode, op['id'], op.get('size', 0))
+        val, raw, back = make_record(self.mode, op['id'], op.get('size', 0), op.get('odd', 0))
         ts = None
         kind = op.get('ts')
         subus = False
@@ -1091,6 +1103,8 @@ def gen_history_c13(ch, knobs):
             size = ch.rng_int('ops', 3, max(3, hi // 2)) if sk == 0 else ch.rng_int('ops', 0, 3) if sk == 1 \
                 else ch.rng_int('ops', hi // 2, hi)
             op = {'op': 'write', 'id': rid, 'size': size}
+            if ch.chance('ops', 1, 8):
+                op['odd'] = ch.rng_int('ops', 1, len(ODD))
             rid += 1
             g = knobs['given_ts']
             if g and ch.chance('ops', 1, 3):
